@@ -510,10 +510,11 @@ class Executor:
                     if len(vals) == 1:
                         return vals[0]
                     raise Unsupported(f'class attribute {attr} on class-set {obj}')
-            if obj.cls_set is None and obj.label == 'self' and getattr(self, 'self_class', None) is not None and attr not in obj.fields:
+            if obj.cls_set is None and obj.label == 'self' and (getattr(obj, 'self_class', None) or getattr(self, 'self_class', None)) is not None \
+                    and attr not in obj.fields:
                 # the receiver of the method under contract was left untyped by the contract: members the contract does not describe (typically a helper
                 # method extracted from the verified one, a class-level constant) are resolved on the class that defines the verified method
-                K = self.self_class
+                K = getattr(obj, 'self_class', None) or self.self_class
                 dv = self._init_default(K, attr)
                 if dv is not _MISSING:
                     return dv
@@ -766,6 +767,10 @@ class Executor:
                           or (depth < 3 and any(k_[1].endswith(('__deepcopy__', '__copy__')) for k_, _ in self.stack))):
             raise Unsupported(f'recursion without contract: {key}')
         fn = clo.node
+        if clo.defcls is not None and args and isinstance(args[0], SymObj) and args[0].cls_set is None and args[0].label == 'self' \
+                and getattr(args[0], 'self_class', None) is None and clo.self_obj is None:
+            # a method under contract called on a receiver the contract left untyped: see getattr's fallback for members the contract does not describe
+            args[0].self_class = clo.defcls
         env = Env(clo.module, parent=clo.env if clo.env.vars or clo.env.parent else None)
         if isinstance(fn, ast.Lambda):
             self.bind_params(fn.args, args, kwargs, env, clo)
